@@ -484,6 +484,10 @@ loop:
 			} else {
 				p.work = &WorkHours{Days: c[i+1], StartHour: c[i+2], StartMin: c[i+3], EndHour: c[i+4], EndMin: c[i+5]}
 			}
+		case valSelectorPercent, valSelectorPercentRoundRobin:
+			if i+1 >= n {
+				return nil, -1, 0, xerr.Wrap("select-precent", ErrInvalidSetting)
+			}
 		case SelectorRandom, SelectorRoundRobin, SelectorLastValid, SelectorSemiRandom, SelectorSemiRoundRobin, SelectorSemiLastValid:
 			z = c[i]
 		case ConnectTCP:
